@@ -8,6 +8,7 @@ import Rustemo.Props.Example
 import Rustemo.Props.C02
 import Rustemo.Props.C03
 import Rustemo.Props.C14
+import Rustemo.Props.C13
 /-!
 # C01 / C04 (C02, C13–C15 hypotheses) — the table CONSTRUCTION inside the model
 
@@ -190,23 +191,54 @@ theorem C03_construction_engine_sound_partial (g : Grammar) (hg : gwf g = true) 
   obtain ⟨n, hv, _⟩ := Rustemo.Glr.result_trees_ok hr i tr ht
   exact ⟨hv, Tree.complete_elided env.g tr _ hv⟩
 
-/-- **C14 round trip over tables of the construction** (LALR, LALR_PAGER; built-in whitespace skipping on or off; no
-    Layout rule).  The structural certificate of `C14_roundtrip` is discharged by `construction_structural`; what
-    stays an executable hypothesis is `Cert.noShiftStop` (no SHIFT in the STOP column), not yet proved of the
-    construction — hence `_partial`.  Then for every well-formed grammar, every recognizer family satisfying
-    `RecogOk`, every input and fuel: token values and stored layout of the tree, concatenated in order, are exactly
-    the consumed prefix of the input. -/
-theorem C14_construction_roundtrip_partial (g : Grammar) (hg : gwf g = true) (s : Settings) (fuelT : Nat)
+/-- **No SHIFT in the STOP column of any constructed table** (all three table types): a SHIFT entry of the final
+    table was a SHIFT entry before resolution (`final_cell`), every such entry stands on an item whose symbol after the
+    dot is the column (`InvC.cellsound`, an invariant of `calc_states`), and no right-hand side of a well-formed
+    grammar contains STOP.  This is the hypothesis `Cert.noShiftStop` of C13 / C14, as a proposition. -/
+theorem construction_no_shift_stop (g : Grammar) (hg : gwf g = true) (s : Settings) (fuel : Nat) (t : Table)
+    (h : build g s fuel = .ok t) : NoShiftStop t := by
+  intro i s' hm
+  obtain ⟨st', hst', hm'⟩ := Rustemo.mem_cell hm
+  have hG := GW.of_gwf hg
+  obtain ⟨sts, autos, hF⟩ := built_final hG (build_ok h)
+  obtain ⟨st0, h1, h2⟩ := hF.fin i st' hst'
+  obtain ⟨_, hc⟩ := final_cell h2 hm'
+  have hsh : Action.shift s' ∈ st0.actions.getD 0 [] := by
+    rcases hc with hc | ⟨hc, _⟩ | ⟨_, _, _, _, hc⟩
+    · exact hc
+    · cases hc
+    · cases hc
+  obtain ⟨c, _, hr⟩ := (hF.invc.st i st0 h1).cellsound 0 s' hsh
+  unfold Grammar.rhsAt at hr
+  split at hr
+  · rename_i pr hpr
+    have := ((hG.prod_ok c.1 pr hpr).2.2 0 (List.mem_of_getElem? hr)).1
+    omega
+  · simp at hr
+
+/-- **C13 for every grammar, no certificate run** (LALR, LALR_PAGER, LALR_RN tables driven by the LR parser; Layout rule
+    or whitespace skipping; partial parsing on or off): the tree of every successful run of the byte-level model of
+    `LRParser::parse` over a constructed table satisfies the span specification at every node. -/
+theorem C13_construction_lr_spans (g : Grammar) (hg : gwf g = true) (s : Settings) (fuelT : Nat)
+    (t : Table) (h : build g s fuelT = .ok t) (env : Env) (het : env.t = t)
+    (hc : env.custom = none) (hr : RecogOk env)
+    (partialParse : Bool) (fuel : Nat) (ctx : Ctx) (r : ParseResult)
+    (hrun : parse env partialParse fuel = (ctx, .ok r)) : r.tree.SpanOk env.input := by
+  subst het
+  exact parse_spans env hc hr (construction_no_shift_stop g hg s fuelT env.t h) partialParse fuel ctx r hrun
+
+/-- **C14 round trip for every grammar, no certificate run** (LALR, LALR_PAGER; whitespace skipping on or off; no
+    Layout rule): both certificate hypotheses of `C14_roundtrip` are discharged by the construction theorems. -/
+theorem C14_construction_roundtrip (g : Grammar) (hg : gwf g = true) (s : Settings) (fuelT : Nat)
     (t : Table) (h : build g s fuelT = .ok t) (htt : s.tableType ≠ "LALR_RN")
     (env : Env) (heg : env.g = g) (het : env.t = t)
     (hc : env.custom = none) (hl : t.layoutState = none) (hr : RecogOk env)
-    (hstop : Cert.noShiftStop t = true)
     (partialParse : Bool) (fuel : Nat) (ctx : Ctx) (r : ParseResult)
     (hrun : parse env partialParse fuel = (ctx, .ok r)) :
     Tree.flat env.input r.tree ++ layBytes env.input ctx.lay = env.input.take ctx.pos.pos := by
   subst heg het
-  exact Props.C14.C14_roundtrip env hc hl hr hstop
-    (construction_structural env.g hg s fuelT env.t h htt) partialParse fuel ctx r hrun
+  exact parse_roundtrip env hc hl hr (construction_no_shift_stop env.g hg s fuelT env.t h)
+    (construction_structural_prop env.g hg s fuelT env.t h htt) partialParse fuel ctx r hrun
 
 /-! ## non-vacuity: `S: 'a' S | EMPTY` -/
 
@@ -254,7 +286,8 @@ example : okAnd (build gT { tableType := "LALR_RN", glr := true } 20)
        | .ok r => (r.getTree 0).isSome
        | _ => false)) = true := by decide +kernel
 
-/-- the hypotheses of `C14_construction_roundtrip_partial` are met on the constructed table (the successful run
+/-- the hypotheses of `C13_construction_lr_spans` / `C14_construction_roundtrip` are met on the constructed table, and
+    `construction_no_shift_stop` is observed on it (the successful run
     is the example above; `RecogOk` mentions only `recog` and `input`, those of `Example.env`: example in `Props/C13.lean`) -/
 example : okAnd (build gT lalr 20) (fun t => Cert.noShiftStop t && t.layoutState.isNone) = true := by
   decide +kernel
